@@ -31,6 +31,8 @@ def num_faults():
         ("index-a-scalar", lambda: matom(amap(mapvar("c5", ("int", 0)))), [inj_val("c5", tv_int("i64", 5))]),
         ("wrong-key-kind", lambda: matom(amap(mapvar("mu", ("int", 3)))), [inj_map("mu", "u8", "i64", [])]),
         ("panicking-function", lambda: matom(acall(call("func", "Boom", []))), [inj_func("Boom")]),
+        ("panicking-function-error-value", lambda: matom(acall(call("func", "BoomErr", []))), [inj_func("BoomErr")]),
+        ("panicking-function-runtime-error", lambda: matom(acall(call("func", "BoomRT", []))), [inj_func("BoomRT")]),
         ("panicking-method", lambda: matom(acall(call("method", "h.Boom", []))), [inj_struct("h")]),
         ("too-few-args", lambda: matom(acall(call("func", "Two", [("const", kint(1))]))), [inj_func("Two")]),
         ("too-many-args", lambda: matom(acall(call("func", "IdI64", [("const", kint(1)), ("const", kint(2))]))), [inj_func("IdI64")]),
